@@ -340,6 +340,7 @@ class Runner:
 class C11(Check):
     pid = "C11"
     case_timeout = 600
+    budget_thorough = 1800
     level = "model_checking"
     rule = ("states are event histories: all sequences of do(c) (23 change shapes over {a.py,b.py,d/,d/a.py,e/}, incl. "
             "two-step sets and removals), undo(), redo(), undo(change=undo_list[i]), redo(change=redo_list[i]), undo(drop=True) "
